@@ -2,11 +2,12 @@
 NOTYET = "no contract set built for this property yet in this session; nothing is claimed (technique unchanged: contracts + govc)"
 
 claim("C20",
-      "PatternMatchVariance is proved equal to its closed-form specification (infinite below one pixel per module, infinite on an "
-      "individual deviation above the limit, otherwise total absolute deviation / total width) for all counter and pattern vectors, "
-      "with loop invariants over recursive sum/absdev spec functions; BitArray.Get is proved against the abstract bit view.",
-      "float64 treated as real arithmetic (+Inf as a real constant >= 1e30); int overflow excluded by size preconditions in the contract; "
-      "trusted: govc, go/ssa, the SMT solvers.")
+      "PatternMatchVariance is proved equal to its closed-form specification (infinite below one pixel per module, infinite on an individual deviation above the limit, otherwise total absolute deviation / total width, never negative) "
+      "for all counter and pattern vectors, with loop invariants over recursive sum/absdev spec functions. RecordPattern is proved panic-free, to fail (NotFoundException) only when start is outside the row or fewer than n-1 colour "
+      "changes follow, and to leave every counter in 1..row size on success. The three best-match decoders are proved against 'the variance' as an opaque value: itfReader_decodeDigit returns the digit of the unique pattern with the "
+      "strictly smallest variance below the limit and refuses ties; upceanReader_decodeDigit and code128DecodeCode return the first pattern with the smallest variance below the limit and fail exactly when RecordPattern fails or no "
+      "pattern is below the limit. BitArray.Get is proved against the abstract bit view. Not stated: that RecordPattern's counters are exactly the run lengths; RecordPatternInReverse; decodeDigit of the other symbologies.",
+      "float64 treated as real arithmetic (+Inf as a real constant >= 1e30; named float constants are their float64 values); int overflow excluded by size preconditions; pmv is opaque outside PatternMatchVariance.")
 
 claim("C16",
       "Every BitArray operation (Get/Set/Flip/SetBulk/SetRange/Clear/IsRange/GetNextSet/GetNextUnset/AppendBit/AppendBits/AppendBitArray/Xor/ToBytes/Reverse/"
